@@ -60,6 +60,10 @@ def run(ctx):
             name = r.choice(names) if r.random() < 0.5 else "".join(r.choice("abcdefghijklmnopqrstuvwxyz_") for _ in range(r.randint(0, 12)))
             if r.random() < 0.2:
                 name = name[:-1] if name else "x"
+            elif r.random() < 0.25 and name:
+                # near misses a normalising lookup would accept: case, surrounding blanks, dashes, the camel-case API name
+                name = r.choice([name.upper(), name.capitalize(), " " + name, name + " ", name.replace("_", "-"), name.replace("_", ""),
+                                 "".join(w.capitalize() for w in name.split("_")), name + "\n", name.replace("_", "__")])
             cases.append((False, name, 0, r.randint(-2, 20), r.choice(list(ET))))
 
     def impl(by_key, name, key, ver, ty):
